@@ -1,4 +1,4 @@
-import HypatiaProofs.Lemmas.PersistIndex
+import HypatiaProofs.Lemmas.PersistIndexLog
 import HypatiaProofs.Properties.C09
 
 /-!
@@ -45,6 +45,27 @@ theorem c09_keyword_op_disciplined (cell : ObjId → Nat) (eff : Nat → Val →
 theorem c09_facet_op_disciplined (cell : ObjId → Nat) (eff : Nat → Val → Val) (facets : List K) (x : KTx K)
     (op : TOp (List K)) : Disciplined (blockOf cell eff (facetSteps facets x op)) :=
   disciplined_blockOf cell eff (discSteps_all_notify _ _)
+
+/-- the steps cut out of the logs are the operation's own: the log of the state after the
+operation is the log before it with exactly these steps appended (oldest first) -/
+theorem c09_steps_are_the_log_gained (x : FTx V) (op : TOp V) (ck : KCfg) (xk : KTx K) (opk : TOp (List K))
+    (facets : List K) (ct : TCfg Wt) (hc : ct.Faithful) (xt : TTx W Wt) (opt : TOp (List W)) :
+    (∃ blk, (x.step op).writes = blk ++ x.writes ∧ fieldSteps x op = blk.reverse.map (fun l => ⟨l.obj, true⟩)) ∧
+    (∃ blk, (KTx.step ck xk opk).writes = blk ++ xk.writes ∧
+      keywordSteps ck xk opk = blk.reverse.map (fun l => ⟨l.obj, true⟩)) ∧
+    (∃ blk, (KTx.facetStep facets xk opk).writes = blk ++ xk.writes ∧
+      facetSteps facets xk opk = blk.reverse.map (fun l => ⟨l.obj, true⟩)) ∧
+    (∃ blk, (TTx.step ct xt opt).log = blk ++ xt.log ∧
+      textSteps ct xt opt = blk.reverse.map (fun s => ⟨s.loc.obj, s.notify⟩)) := by
+  refine ⟨?_, ?_, ?_, ?_⟩
+  · obtain ⟨blk, e⟩ := fext_step x op
+    exact ⟨blk, e, by unfold fieldSteps; rw [e, gained_append]⟩
+  · obtain ⟨blk, e⟩ := kext_step ck xk opk
+    exact ⟨blk, e, by unfold keywordSteps; rw [e, gained_append]⟩
+  · obtain ⟨blk, e⟩ := kext_facetStep facets xk opk
+    exact ⟨blk, e, by unfold facetSteps; rw [e, gained_append]⟩
+  · obtain ⟨blk, e, _⟩ := logExt_of_reach (reach_step (D := fun _ => True) hc (Reach.refl (x := xt)) opt trivial)
+    exact ⟨blk, e, by unfold textSteps; rw [e, gained_append]⟩
 
 /-- **Text index**: every operation of the unchanged code is a disciplined block, from any state. -/
 theorem c09_text_op_disciplined (cell : TObj → Nat) (eff : Nat → Val → Val) (c : TCfg Wt) (hc : c.Faithful)
